@@ -19,6 +19,6 @@ for f in glob.glob(os.path.join(src, 'check_*.out')):
 meta = {"id": sid, "property": prop, "breaks": open(os.path.join(src, 'NOTES.md')).read().split('\n\n')[0][:600] if os.path.exists(os.path.join(src, 'NOTES.md')) else '',
         "needs_to_manifest": needs, "demo": {"place_at": dest, "run": runcmd, "fails_with_change": True, "passes_without": True},
         "confirmed": {"what_i_ran": "lib/seed_confirm.sh in a scratch worktree of /repo: demo on clean tree (pass), git apply patch.diff, go build ./... (ok), demo (fail), existing tests of changed packages + direct importers (pass), then ./check <props> with VERIF_REPO=<worktree>", "summary": summ[-1] if summ else ''},
-        "checks_at_first_trial": checks}
+        "checks_at_first_trial": checks, "also_check": sorted(k for k in checks if k != prop)}
 json.dump(meta, open(os.path.join(d, 'meta.json'), 'w'), indent=1)
 print(sid, checks)
